@@ -54,6 +54,7 @@ PROPS["C17"] = {
 
 PROPS["C11"] = {
     "harness": {"kind": "cmd", "cmd": "c11"},
+    "extra_harnesses": [{"cmd": "nodewire", "tag": "nodewire"}],
     "level_text": "Theorems: the check answers yes iff both reads were obtained and decoded and amount >= minimum (any call or decoding failure yields no; a return shorter than 32 bytes is a failure); for all values < 2^256 the decoded words are the on-chain numbers (big-endian round trip); stake/prepay hands exactly (registry address, amount as value, 4-byte selector) to the evm client and reports success iff send succeeded and the receipt has status 1. Tied to both real wrappers over the repository's mock evm client: exhaustive fault placement x return shapes {error, empty, 31, 32, 33, 64 bytes} x boundary value pairs up to 2^256-1 x every receipt outcome.",
     "level_note": "Trusted: Lean kernel; differential harness; go-ethereum abi.Pack/Unpack (modelled as: <32 bytes error, else first word big-endian; compared on every case); contracts-abi metadata for selectors.",
     "nontrivial_rule": "distinct (tag, which registry, model observation) cells",
@@ -168,6 +169,7 @@ PROPS["C01"] = {
 }
 PROPS["C07"] = {
     "harness": {"kind": "cmd", "cmd": "handlebid"},
+    "extra_harnesses": [{"cmd": "nodewire", "tag": "nodewire"}],
     "level_text": "Theorems: decode(encode(args)) = args for the 7-argument storeCommitment call (unbounded string/bytes, all 64-bit numbers; selector + head/tail layout); for every bid in the validated domain the calldata built from the commitment decodes to exactly its amount, block number, tx-hash string, decay window, bid signature and commitment signature (the 64-bit conversions are the identity there); in the handler model a commitment is written only after a successful submission and a failed submission yields an error and no commitment. Tied to the real handleBid + real preconf-contract wrapper: captured calldata is decoded by the Lean decoder and compared field by field with the commitment actually written, compared byte for byte with the Lean encoder's output (i.e. with go-ethereum's abi.Pack), destination = configured address, order of Send and WriteMsg; amounts up to 2^64-1 incl. [2^63, 2^64).",
     "level_note": "Trusted: Lean kernel; harness; go-ethereum abi.Pack (compared byte for byte on every accepting case); contracts-abi metadata for the selector; big.Int.Int64 on [2^63,2^64) returns the low 64 bits in the pinned Go implementation (documented as undefined; compared differentially).",
     "nontrivial_rule": "distinct accepted bids (tag, calldata length class); every case is a fresh random bid",
